@@ -421,15 +421,38 @@ def r4_single_conversion(ctx):
         why = "update_processor(parameter=convert_to_parameters(decision))" if ok else f"update_processor receives {norm(ax)[:70]}: logarithmic variables would be applied as exponents"
     ctx.check(ok, fit.qual + "#converted", why, where=fit, node=ups[0] if ups else fit.node)
     gc = ctx.func(f"{AD}._get_champions")
-    sts = {t.slice.value: st for st, t in stores(gc.node, lambda t: isinstance(t, ast.Subscript) and isinstance(t.slice, ast.Constant))}
+    from sa.astutil import dict_display
+
+    def _dataset_entries(f_):
+        """name -> value of the variables of the Dataset a function returns: `ds = xr.Dataset(); ds["k"] = v; return ds`
+        and `return xr.Dataset({"k": v})` are the same mapping."""
+        rets_ = [r for r in returns_of(f_) if r.value is not None]
+        if len(rets_) != 1:
+            return {}, None
+        v_ = rets_[0].value
+        if isinstance(v_, ast.Name):
+            dd = dict_display(f_, v_.id)
+            return ({k.value: x for k, x in zip(dd.keys, dd.values) if k is not None} if dd is not None else {}), v_.id
+        v_ = expand(f_, v_)
+        if isinstance(v_, ast.Call) and call_name(v_).split(".")[-1] == "Dataset" and v_.args and isinstance(expand(f_, v_.args[0]), ast.Dict):
+            d_ = expand(f_, v_.args[0])
+            return {k.value: x for k, x in zip(d_.keys, d_.values) if isinstance(k, ast.Constant)}, None
+        return {}, None
+
+    sts, ds_name = _dataset_entries(gc)
     ok = {"champion_decision", "champion_parameters", "champion_fitness"} <= set(sts)
     if ok:
-        dec = expand(gc, sts["champion_decision"].value)
-        par = sts["champion_parameters"].value
-        fitv = expand(gc, sts["champion_fitness"].value)
+        keep_ = {ds_name} if ds_name else set()
+        dec = expand(gc, sts["champion_decision"], _seen=set(keep_))
+        par = expand(gc, sts["champion_parameters"], _seen=set(keep_))
+        fitv = expand(gc, sts["champion_fitness"], _seen=set(keep_))
         conv = [c for c in ast.walk(par) if isinstance(c, ast.Call) and isinstance(c.func, ast.Attribute) and c.func.attr == "convert_to_parameters"]
-        ok = "get_champions_x()" in norm(dec) and "get_champions_f()" in norm(fitv) and len(conv) == 1 and norm(conv[0].args[0]) in ("champions['champion_decision']", "champions_1d_decision") and dotted(conv[0].func.value) == "self.problem"
-    ctx.check(ok, gc.qual, "champion_parameters = problem.convert_to_parameters(champion_decision)" if ok else "reported champion parameters are not the conversion of the reported champion decision", where=gc, node=sts.get("champion_parameters", gc.node) if isinstance(sts, dict) else gc.node)
+        ok = "get_champions_x()" in norm(dec) and "get_champions_f()" in norm(fitv) and len(conv) == 1 and dotted(conv[0].func.value) == "self.problem"
+        if ok:
+            a_ = arg_or_kw(conv[0], 0, "decisions_vector")
+            same = a_ is not None and (norm(a_) == f"{ds_name}['champion_decision']" or norm(expand(gc, a_, _seen=set(keep_))) == norm(dec) or (norm(expand(gc, a_, _seen=set(keep_))).endswith("get_champions_x()") and norm(expand(gc, a_, _seen=set(keep_))) in norm(dec)))
+            ok = same
+    ctx.check(ok, gc.qual, "champion_parameters = problem.convert_to_parameters(champion_decision)" if ok else "reported champion parameters are not the conversion of the reported champion decision", where=gc, node=sts.get("champion_parameters", gc.node))
     gb = ctx.func(f"{AD}.get_best_individuals")
     sts = {t.slice.value: st for st, t in stores(gb.node, lambda t: isinstance(t, ast.Subscript) and isinstance(t.slice, ast.Constant))}
     ok = {"best_decision", "best_parameters", "best_fitness"} <= set(sts)
